@@ -190,9 +190,24 @@ def rule_bn2_bn3(repo, col):
             if len(loops) == 1 and isinstance(loops[0].target, ast.Tuple) and len(loops[0].target.elts) == 2 and dom:
                 idx = norm(loops[0].target.elts[0])
                 node = loops[0]
-                ok = norm(loops[0].iter.args[0]) == headsv and len(loops[0].iter.args) == 1
+                # first index of the enumeration: enumerate(heads) -> 0, enumerate(heads, 1) / enumerate(heads, start=1) -> 1
+                start = 0
+                extra = list(loops[0].iter.args[1:]) + [k.value for k in loops[0].iter.keywords if k.arg == "start"]
+                if extra:
+                    okf, start = const_value(extra[0])
+                    if not okf or not isinstance(start, int):
+                        raise AnalysisError("clause_to_cpt: start of the head enumeration not foldable")
+                ok = norm(loops[0].iter.args[0]) == headsv
                 pairs = pat.find("V_pgm.add_factor(OrCPT(V_pgm, V_rv, [(%s, E_val)]))" % cnv, loops[0])
-                ok = ok and len(pairs) == 1 and pairs[0][1]["E_val"] in ("%s + 1" % idx, "1 + %s" % idx)
+                ok = ok and len(pairs) == 1
+                if ok:
+                    # the value attached to the k-th head (k = 0, 1, 4) must be k + 1
+                    ev = ast.parse(pairs[0][1]["E_val"], mode="eval").body
+                    for k in (0, 1, 4):
+                        okf, v = const_value(ev, {idx: start + k})
+                        if not okf:
+                            raise AnalysisError("clause_to_cpt: choice value of a head not foldable: %s" % pairs[0][1]["E_val"])
+                        ok = ok and v == k + 1
             col.decide("BN3", m, node, ok, "%s branch: head idx is true for choice value idx + 1" % cls_name,
                        "in the %s branch head number idx (as enumerated over the heads, from 0) must be attached to choice value idx + 1: value 0 is 'no head' and the probabilities "
                        "sit at positions 1..n of the row" % cls_name, construct="%s branch: index pairing" % cls_name, function="clause_to_cpt")
